@@ -284,7 +284,7 @@ theorem tar_tree_aux (fuel : Nat) :
       | leaf f =>
         simp only [Tree.WF, LeafWF] at hwf
         simp only [Tree.hd, Tree.sub, List.nil_append, Tree.body]
-        exact tarOne_leaf fuel f K hwf.1
+        exact tarOne_leaf fuel f K hwf.1 hwf.2.2.2.2.1
       | dir f cs =>
         simp only [Tree.WF] at hwf
         obtain ⟨hk, _, hna, _, _, _, _, hcs⟩ := hwf
